@@ -31,11 +31,18 @@ package platform
 //@   trusted -- abstract view of the trie; the nested map of instance name tries is not verified against it
 //@   modifies triemap[t]
 //@   ensures forall k ref :: triemap[t][k] == ite(k == key, value + 1, old(triemap[t][k]))
+// Remove is verified as far as the nested maps go: the trie of a platform is
+// only dropped when the instance name trie reported that the removed prefix was
+// its last one (otherwise the other prefixes registered for the same platform
+// stop resolving, and their requests go to the queue of a shorter prefix).
+//@ ghost map lastprefixgone(ref) int zero
 //@ func (*Trie).Remove
 //@   props C05
-//@   trusted -- abstract view of the trie
 //@   modifies triemap[t]
-//@   ensures forall k ref :: triemap[t][k] == ite(k == key, 0, old(triemap[t][k]))
+//@   trustframe -- the nested map of instance name tries is the representation of the abstract view; it is not visible to callers
+//@   ensures_assumed forall k ref :: triemap[t][k] == ite(k == key, 0, old(triemap[t][k])) -- abstract view of the trie
+//@   at call Remove#1 ghostset lastprefixgone[nil] = ite(r0, 1, 0)
+//@   at call delete#1 assert a-platform-is-only-forgotten-with-its-last-prefix: lastprefixgone(nil) == 1
 
 //@ func (*Trie).GetExact
 //@   props C05
